@@ -3,7 +3,7 @@ import SaVerif.Gen.LikeDefaults
 M-STR / LIKE: transcription of the autoescape code and of the LIKE renderings of
 the string operators, plus two executable LIKE matchers.
 Core-only, total, executable (imports only the generated constants file
-`Gen/LikeDefaults.lean`: default escape, the `("%", "_")` tuple and the replace chain
+`Gen/LikeDefaults.lean`: default escape and the `("%", "_", escape)` tuple
 are read from the source by the translator in harness/props/c08.py).
 Strings are `List Char` (the driver converts).
 
@@ -12,11 +12,9 @@ Python (lib/sqlalchemy)                              model
 sql/operators.py  _escaped_like_impl(fn, other,      `effective` (escape / bind value
    escape, autoescape)                                 actually handed to `fn`)
      if escape is None: escape = "/"                  `escape.getD defaultEscape` (Gen)
-     if escape not in ("%", "_"):                     `noDouble` (Gen); first `replace1`
-         other = other.replace(escape, escape*2)
-     other = other.replace("%", escape + "%")         fold over `escapedChars` (Gen):
-                  .replace("_", escape + "_")         second and third `replace1`
-  str.replace(old, new), len(old) == 1                `replace1 old new`
+     other = "".join(escape + char                    `escapeLike`: single pass;
+        if char in ("%", "_", escape) else char          tuple = `escapedChars` (Gen) +
+        for char in other)                               `escapesEscape` (Gen)
 sql/compiler.py visit_contains_op_binary              `wrap .contains   b = % ++ b ++ %`
                 visit_startswith_op_binary            `wrap .startswith b = b ++ %`
                 visit_endswith_op_binary              `wrap .endswith   b = % ++ b`
@@ -47,15 +45,14 @@ open SaVerif.Gen.LikeDefaults
 
 /-! ## Python side -/
 
-/-- `s.replace(old, new)` for a one-character `old` -/
-def replace1 (old : Char) (new : List Char) : List Char → List Char
+/-- `"".join(escape + char if char in ("%", "_", escape) else char for char in other)`:
+    one pass; the tuple's literal members and whether it mentions `escape` come from the
+    translator (Gen.LikeDefaults) -/
+def escapeLike (esc : Char) : List Char → List Char
   | [] => []
-  | c :: cs => if c = old then new ++ replace1 old new cs else c :: replace1 old new cs
-
-/-- the three sequential `str.replace` calls of `_escaped_like_impl` -/
-def escapeLike (esc : Char) (other : List Char) : List Char :=
-  let o1 := if !noDouble.contains esc then replace1 esc [esc, esc] other else other
-  escapedChars.foldl (fun o x => replace1 x [esc, x] o) o1
+  | c :: cs =>
+    if escapedChars.contains c || (escapesEscape && c == esc) then esc :: c :: escapeLike esc cs
+    else c :: escapeLike esc cs
 
 /-- what `_escaped_like_impl` passes on: (bind value, escape modifier) -/
 def effective (escape : Option Char) (autoescape : Bool) (other : List Char) :
